@@ -56,6 +56,19 @@ def rgrid_term(g, a, G='G'):
     return '(Some (restrict %s %s %s %s))' % (G, disc, C.z(s), C.z(e))
 
 
+def implicit_ends(p, tz):
+    """instants of the interval ends of an interval dictionary; without 'end' the documented convention applies: an interval ends
+    where the next one starts, the last one lasts twice the distance of the last two starts (computed on the time stamps as
+    given: wall-clock arithmetic for naive stamps, which are localised afterwards), a single start is valid for ever (None)"""
+    if 'end' in p:
+        return [inst(t, tz) for t in p['end']]
+    st = [pd.Timestamp(t) for t in p['start']]
+    if len(st) == 1:
+        return [None]
+    last = st[-1] + 2 * (st[-1] - st[-2])
+    return [inst(t, tz) for t in st[1:]] + [inst(last, tz)]
+
+
 def param_term(p, spec, g):
     tz = g.get('tz')
     if p is None:
@@ -66,10 +79,8 @@ def param_term(p, spec, g):
         return '(PKey %s)' % C.qvec(spec['prices'][p])
     if isinstance(p, dict) and 'start' in p:
         st = [inst(t, tz) for t in p['start']]
-        if 'end' in p:
-            en = [inst(t, tz) for t in p['end']]
-            return '(PDict %s)' % C.lst(['(%s, Some %s, %s)' % (C.z(s), C.z(e), C.q(float(v))) for s, e, v in zip(st, en, p['values'])])
-        return '(PDictS %s %s)' % (C.lst([C.z(s) for s in st]), C.qvec(p['values']))
+        en = implicit_ends(p, tz)
+        return '(PDict %s)' % C.lst(['(%s, %s, %s)' % (C.z(s), 'None' if e is None else 'Some %s' % C.z(e), C.q(float(v))) for s, e, v in zip(st, en, p['values'])])
     raise ValueError('param form %r' % (p,))
 
 
